@@ -12,6 +12,7 @@ import MpVerif.C19.Model
 * `sf <hex> <hex> ...`                    -> `<b>`     suffixFreeB
 * `np <mode> <colhex|-|0> <rowhex|-|0> <nv> <ndv> <ncon> <nalg> <nobj> <objno> <multi>`
       -> `none` | `error` | `names V <hex>.. C <hex>.. O <hex>..`   (`-` absent file, `0` empty file)
+* `inames <nv> <ndv> <ncon> <nalg> <nobj>`   -> `names V .. C .. O ..`   names invented by BasicProblem::item_name (graph export without names)
 * `file <hex>`                            -> `error` | `nread=<n> <hex>..`   names via NameProvider::name(0..nread-1)
 No logic here: every answer is a call of a model function. -/
 open MpVerif.C19
@@ -108,6 +109,12 @@ def handle (d : DSt) (ws : List String) : DSt × String :=
       | .names o =>
         (d, s!"names V {outNames o.vars} C {outNames o.cons} O {outNames o.objs}")
     | _, _, _, _, _, _, _, _, _, _ => (d, "bad-op")
+  | ["inames", nv, ndv, ncon, nalg, nobj] =>
+    match nv.toNat?, ndv.toNat?, ncon.toNat?, nalg.toNat?, nobj.toNat? with
+    | some nv, some ndv, some ncon, some nalg, some nobj =>
+      let (v, c, o) := itemNamesModel nv ndv ncon nalg nobj
+      (d, s!"names V {" ".intercalate (v.map toHex)} C {" ".intercalate (c.map toHex)} O {" ".intercalate (o.map toHex)}")
+    | _, _, _, _, _ => (d, "bad-op")
   | ["file", h] =>
     match fileArg h with
     | some f =>
